@@ -174,7 +174,7 @@ def main():
     chk.assumptions = ['ThreadSanitizer sees the library and the driver (both built with -fsanitize=thread); Xerces-C and ICU are not instrumented (no report arose from them on the unchanged tree)',
                        'schedules are those the kernel produces on an oversubscribed 16-core machine with randomized yields; no schedule enumeration']
     chk.ensure('tsan', 'xvmt')
-    n = 64 if chk.tier == 'quick' else 640
+    n = 64 if chk.tier == 'quick' else 2000
     chk.run_cases('c07', 'case', range(n))
     chk.finish(min_nontrivial=20, required_stats=('concurrent_transformations', 'cold_runs', 'cold_first_number-scripts', 'cold_first_sort-lang', 'facility_keys', 'facility_number', 'facility_document', 'facility_id', 'facility_sort', 'facility_format-number'))
 
